@@ -24,6 +24,8 @@ Require Import V.Model.Reader.
 Require Import V.Model.Image.
 Require Import V.Model.Subscription.
 Require Import V.Model.Assembler.
+Require Import V.Generated.GenBufferBuilder.
+Require Import V.Model.BufferBuilder.
 Require Import V.Oracle.C05Cases.
 Require Import V.Oracle.C05Oracle.
 Require Import V.Oracle.C20Cases.
@@ -279,3 +281,78 @@ Fixpoint oadd_initial (absent present : list oslot) (ids : list Z) : list oslot 
 Definition holds_sub_case (slots : list sslot) (initial : list Z) (ops : list sop) (obs : list sobs) : bool :=
   let '(absent, present) := oadd_initial (build_oslots 0 slots) [] initial in
   judge_all20 (absent, present, 0, []) ops obs.
+
+(* ---------------------------------------------------------------------------------------------------------------- *)
+(* BufferBuilder on its own (harness kind `bb`): what the reassembly buffer must do, as a predicate over what was observed.
+   - after `new`: limit HDR, nothing appended, capacity a power of two, at least the minimum, and - for initial lengths
+     1 .. 2^30 - the smallest such capacity that holds the initial length;
+   - append: succeeds (while the new limit is at most BB_SAFE + 1; beyond, debug and release builds differ and nothing is
+     judged), the limit grows by exactly the length, the bytes [HDR, limit) are the old ones followed by the new ones, the
+     capacity is unchanged when it suffices and otherwise the first capacity c, c + c/2, ... (at most MAX) that suffices;
+   - reset: limit HDR, capacity kept;
+   - set_limit: rejected when limit >= capacity, nothing changes; a successful set_limit exposes bytes the property does
+     not speak about: the rest of the case is not judged.
+   A `Hang`, `Panic` or `Crash` where success is required fails.  The specification does not call the model. *)
+Fixpoint first_cap (fuel : nat) (c r : Z) : Z :=
+  match fuel with O => c | S f => let c' := grow_spec c in if r <=? c' then c' else first_cap f c' r end.
+Definition expect_cap (cap req : Z) : Z := if req <=? cap then cap else first_cap 96 cap req.
+
+Definition is_pow2 (c : Z) : bool := (0 <? c) && (2 ^ Z.log2 c =? c).
+Definition new_cap_ok (initial c : Z) : bool :=
+  (BB_MIN_CAPACITY <=? c) && is_pow2 c &&
+  (if (1 <=? initial) && (initial <=? 1073741824) then (initial <=? c) && ((c =? BB_MIN_CAPACITY) || (c <? 2 * initial))
+   else c =? BB_MIN_CAPACITY).
+
+Definition is_illegal_arg (r : outcome Z) : bool := match r with Err IllegalArg => true | _ => false end.
+
+(* what the oracle knows: capacity, limit, the bytes appended since the last reset; None = no longer judged *)
+Definition ostate_bb := option (Z * Z * list Z).
+
+Definition judge_bop (st : ostate_bb) (o : bop) (ob : bobs) : bool * ostate_bb :=
+  match st with
+  | None => (true, None)
+  | Some (cap, limit, content) =>
+      let '(r, l', c', h') := ob in
+      match o with
+      | BAppend k len =>
+          if (0 <=? len) && (limit + len <=? BB_SAFE + 1) then
+            let content' := content ++ payload k len in
+            let cap' := expect_cap cap (limit + len) in
+            (out_eqb r (Ok 0) && (l' =? limit + len) && (c' =? cap') && (h' =? hash_bytes 7 content'),
+             Some (cap', limit + len, content'))
+          else (true, None)
+      | BReset => (out_eqb r (Ok 0) && (l' =? HDR) && (c' =? cap) && (h' =? hash_bytes 7 []), Some (cap, HDR, []))
+      | BSetLimit l =>
+          if l >=? cap then (is_illegal_arg r && (l' =? limit) && (c' =? cap) && (h' =? hash_bytes 7 content), st)
+          else (out_eqb r (Ok 0) && (l' =? l) && (c' =? cap), None)
+      end
+  end.
+
+Fixpoint judge_bops (st : ostate_bb) (ops : list bop) (obs : list bobs) : bool :=
+  match ops, obs with
+  | [], [] => true
+  | o :: r, ob :: obr => let '(ok, st') := judge_bop st o ob in ok && judge_bops st' r obr
+  | _, _ => false
+  end.
+
+(* initial lengths whose round-up to a power of two fits an i64: the others are not judged (debug builds panic there) *)
+Definition initial_judged (initial : Z) : bool := (- two63 <? initial) && (initial <=? 4611686018427387904).
+
+Definition holds_bb_case (initial : Z) (ops : list bop) (obs : list bobs) : bool :=
+  if negb (initial_judged initial) then true else
+  match obs with
+  | (r, l, c, h) :: rest =>
+      out_eqb r (Ok 0) && (l =? HDR) && (h =? hash_bytes 7 []) && new_cap_ok initial c && judge_bops (Some (c, HDR, [])) ops rest
+  | [] => false
+  end.
+
+(* find_suitable_capacity called directly (verification hook): for 2 <= capacity < required <= BB_SAFE + 1 it returns the
+   first sufficient capacity of the growth sequence; required above MAX cannot be satisfied: an error or a panic, never a
+   capacity, never an endless loop; in between a release build must return the prescribed capacity and a debug build may
+   panic instead (the growth step overflows an i32) *)
+Definition holds_find (cap req : Z) (r : outcome Z) : bool :=
+  if negb ((2 <=? cap) && (cap <=? BB_MAX_CAPACITY) && (cap <? req)) then true     (* not a call a builder makes *)
+  else if req <=? BB_SAFE + 1 then out_eqb r (Ok (first_cap 96 cap req))
+  else if req <=? BB_MAX_CAPACITY then
+    match r with Ok c => c =? first_cap 96 cap req | Panic => true | _ => false end
+  else match r with Err IllegalState => true | Panic => true | _ => false end.
